@@ -168,9 +168,22 @@ def _check(ctx, case, nc, wd):
                 raise HarnessError("label/token mismatch for %r" % il)
         else:
             labels = []
-            secret_texts = [p[3] for p in ln["parts"] if p[0] == "slot"]
+            # by POSITION: only tokens that overlap a slot of the template are the secret; an ordinary token
+            # that merely reads like the secret (e.g. a user name) is benign and must be carried over
+            spans, pos = [], 0
+            for p in ln["parts"]:
+                if p[0] == "lit":
+                    pos += len(p[1])
+                else:
+                    full = p[2] + p[3] + p[4]
+                    spans.append((pos, pos + len(full)))
+                    pos += len(full)
+            pos = 0
             for t in itoks:
-                if any(s and s in t for s in secret_texts):
+                a = il.index(t, pos)
+                b = a + len(t)
+                pos = b
+                if any(a < e and s < b for s, e in spans):
                     labels.append("secret")
                 else:
                     cl = content_label(t, opts)
@@ -218,7 +231,8 @@ def _check(ctx, case, nc, wd):
     if case.get("locality"):
         if not _locality(ctx, case, nc, opts, feats, text, in_lines, out_lines, rng, tag):
             return
-    ctx.sample({"feats": feats, "via": via, "input": in_lines[0], "output": out_lines[0]})
+    if in_lines:
+        ctx.sample({"feats": feats, "via": via, "input": in_lines[0], "output": out_lines[0]})
 
 
 def _slot_indices(ln, il):
